@@ -103,7 +103,4 @@ def any_text(tier='quick', weights=(3, 2, 2, 3, 2, 2, 1, 2, 1, 2)):
     quick = tier == 'quick'
     srcs = [chars.text(quick), soup.soup(), soup.structured_text(), grammar.rendered_script(3), damaged_script(),
             proc.rendered_script(), corpus_mutation(), batch_script(), soup.comment_led(), soup.dictionary_soup()]
-    pool = []
-    for s, w in zip(srcs, weights):
-        pool.extend([s] * w)
-    return st.one_of(*pool)
+    return grammar.weighted(*[(w, s) for s, w in zip(srcs, weights)])
